@@ -134,6 +134,30 @@ func main() {
 			})
 		}
 		fmt.Println(n, "sites")
+	case "zone":
+		p, err := Load(*repo, *goos, "", nil)
+		if err != nil {
+			fmt.Fprintln(os.Stderr, err)
+			os.Exit(2)
+		}
+		z := &zoneEngine{p: p, contracts: coreContracts(), fieldMinLen: map[string]int64{}}
+		nOK, nBad := 0, 0
+		for _, f := range p.RepoFuncs {
+			if len(pos) > 0 && !strings.Contains(fnName(f), pos[0]) {
+				continue
+			}
+			z.obls = nil
+			z.analyse(f)
+			for _, o := range z.obls {
+				if o.OK {
+					nOK++
+				} else {
+					nBad++
+					fmt.Printf("UNPROVED %s [%s] %s :: %s\n", fnName(f), p.IPos(o.In), o.In.String(), o.Detail)
+				}
+			}
+		}
+		fmt.Println(nOK, "proved,", nBad, "unproved")
 	case "explain":
 		if len(pos) != 1 {
 			usage()
